@@ -2,6 +2,7 @@ import OpusProofs.CwrsCache
 import OpusProofs.Icdf
 import OpusProofs.LaplaceMain
 import OpusProofs.LaplaceP0
+import OpusProofs.CwrsRanges
 /-
   Property C17 — "PVQ, Laplace and table-driven symbol codes are exact, prefix-free bijections".
 
@@ -253,5 +254,102 @@ theorem laplace_p0_icdfs_ok (p0 decay : Nat) (h1 : 0 < p0) (h2 : p0 ≤ 32766) (
    OpusProofs.LaplaceP0.magSymbols_lt⟩
 
 example : Opus.Laplace.magIcdf 16000 = [16000, 7812, 3814, 1862, 909, 443, 216, 0] := by decide
+
+
+/-! ## Extensions: the whole documented Laplace domain, bits2pulses, caps, 32-bit ranges -/
+
+/-- `LaplaceOk` holds on the WHOLE documented domain of `ec_laplace_encode/decode` ("decay is positive and at most
+    11456", `fs ≤ 32768 − LAPLACE_MINP·2·LAPLACE_NMIN`), so `laplace_decode_encode`, `laplace_encode_decode` and
+    `laplace_tiles` apply to every legal parameter pair, independently of the regenerated `e_prob_model`
+    (`eprob_pairs_ok` is the instance for the shipped table). -/
+theorem laplace_domain_ok (fs decay : Nat) (h1 : 0 < fs) (h2 : fs ≤ 32736) (h3 : 0 < decay) (h4 : decay ≤ 11456) :
+    LaplaceOk fs decay = true :=
+  OpusProofs.Laplace.laplaceOk_domain h1 h2 h3 h4
+
+example : LaplaceOk 1 11456 = true ∧ LaplaceOk 32736 1 = true ∧ LaplaceOk 32737 1 = false := by decide +kernel
+
+/-- `ec_laplace_*` stay inside 32 bits: for every index the two "search the decaying part" loops can reach,
+    `fl ≤ 32766`, `fs ≤ 16383` and the product `fs*2*decay` is below 2^32 (so the model's unbounded arithmetic is the
+    C `unsigned` arithmetic; `fl+fs ≤ 32768` is part of `laplace_decode_encode`). -/
+theorem laplace_int_ranges (fs decay : Nat) (h : LaplaceOk fs decay = true) (hd : decay < 65536) :
+    ∃ T, OpusProofs.Laplace.F fs decay T = 0 ∧ ∀ j, j ≤ T →
+      OpusProofs.Laplace.L fs decay j ≤ 32766 ∧ OpusProofs.Laplace.F fs decay j ≤ 16383 ∧
+      OpusProofs.Laplace.F fs decay j * 2 * decay < 4294967296 := by
+  obtain ⟨T, hp⟩ := OpusProofs.Laplace.par_of_ok h
+  exact ⟨T, hp.zero, fun j hj => OpusProofs.CwrsRanges.laplace_ranges hp hd j hj⟩
+
+/-- What `bits2pulses(m, band, LM, bits)` returns (rate.h:53-78), for every band and every frame size of the static
+    mode, with `row = cache.bits + cache.index[(LM+1)*nbEBands+band]`, `K = row[0]`, `c(0) = −1`, `c(p) = row[p]`
+    (`pulses2bits(p) = c(p)+1`) and `b = bits−1`: at most `K`; `K` if every entry is below `b`; otherwise, with `h` the
+    least index whose entry reaches `b`, the nearer of `h−1`, `h` to the budget — `h−1` exactly when
+    `b − c(h−1) ≤ c(h) − b`, i.e. the LOWER index on a tie. -/
+theorem bits2pulses_spec (lm1 band ci : Nat) (hl : lm1 ≤ maxLM + 1) (hb : band < nbEBands)
+    (hci : cacheIndex[lm1 * nbEBands + band]? = some (Int.ofNat ci)) (bits : Int) :
+    let row := OpusProofs.CwrsRanges.rowAt ci
+    let K := cacheBits.getD ci 0
+    bits2pulsesRow row bits ≤ K ∧
+    ((∀ p, 1 ≤ p → p ≤ K → (row p : Int) < bits - 1) → bits2pulsesRow row bits = K) ∧
+    (∀ h, 1 ≤ h → h ≤ K → bits - 1 ≤ (row h : Int) → (∀ p, 1 ≤ p → p < h → (row p : Int) < bits - 1) →
+      bits2pulsesRow row bits =
+        if (bits - 1) - (if h = 1 then -1 else (row (h - 1) : Int)) ≤ (row h : Int) - (bits - 1) then h - 1 else h) :=
+  OpusProofs.CwrsRanges.b2p_cache hl hb hci bits
+
+/-- band 20 at LM = 3 (row `4, 67, 127, 182, 234`): a budget exactly between `c(1)+1` and `c(2)+1` goes to the lower
+    index (tie rule), one more eighth-bit to the higher; tiny budgets give 0, huge ones `K`. -/
+example : bits2pulsesRow (OpusProofs.CwrsRanges.rowAt 387) 98 = 1 ∧ bits2pulsesRow (OpusProofs.CwrsRanges.rowAt 387) 99 = 2 ∧
+    bits2pulsesRow (OpusProofs.CwrsRanges.rowAt 387) 30 = 0 ∧ bits2pulsesRow (OpusProofs.CwrsRanges.rowAt 387) 40 = 1 ∧
+    bits2pulsesRow (OpusProofs.CwrsRanges.rowAt 387) 1000 = 4 ∧ bits2pulsesRow (OpusProofs.CwrsRanges.rowAt 387) (-5) = 0 := by
+  decide +kernel
+
+/-- `pulses2bits` (rate.h:80-87) on the shipped cache: 0 for 0 pulses, `cache[q]+1` otherwise (read inside the array);
+    non-decreasing in the pseudo-pulse index for every band, strictly increasing when the band has at least 3 bins
+    (the rows for N = 1 and N = 2 contain equal neighbours). -/
+theorem pulses2bits_cache (lm1 band ci : Nat) (hl : lm1 ≤ maxLM + 1) (hb : band < nbEBands)
+    (hci : cacheIndex[lm1 * nbEBands + band]? = some (Int.ofNat ci)) :
+    pulses2bits cacheIndex cacheBits nbEBands band lm1 0 = .ok 0 ∧
+    (∀ q, 1 ≤ q → q ≤ cacheBits.getD ci 0 →
+      pulses2bits cacheIndex cacheBits nbEBands band lm1 q = .ok (cacheBits.getD (ci + q) 0 + 1)) ∧
+    (∀ q, 1 ≤ q → q < cacheBits.getD ci 0 → cacheBits.getD (ci + q) 0 ≤ cacheBits.getD (ci + q + 1) 0) ∧
+    (3 ≤ bandN eBands lm1 band → ∀ q, 1 ≤ q → q < cacheBits.getD ci 0 →
+      cacheBits.getD (ci + q) 0 < cacheBits.getD (ci + q + 1) 0) :=
+  OpusProofs.CwrsRanges.p2b_cache hl hb hci
+
+/-- The shipped `cache.caps` (static_modes_float.h `cache_caps50`) is what the second half of `compute_pulse_cache`
+    (rate.c:145-242, re-implemented as `Opus.Rate.computeCaps`) computes from the shipped `cache.index`, `cache.bits`,
+    `eBands` and `logN`; in particular every computed cap is in `0..255` (the two `celt_assert`s). -/
+theorem cache_caps_recomputed :
+    computeCaps cacheIndex cacheBits eBands logN nbEBands maxLM = cacheCaps.map Int.ofNat :=
+  OpusProofs.CwrsRanges.caps_eq
+
+example : cacheCaps.length = 2 * (maxLM + 1) * nbEBands ∧ capEntry cacheIndex cacheBits eBands logN nbEBands 3 2 20 = 40 := by
+  decide +kernel
+
+/-- 32-bit ranges in cwrs.c for every reachable `(N,K)`: `V(N,K) < 2^32`; the accumulator of `icwrs` after any
+    number of loop iterations (`encS (y.drop j)`, by `OpusProofs.CwrsModel.icwrsAux_agree`) is below `V(N,K)`; each
+    iteration of `cwrsi` (`stepS`, by `cwrsiStep_agree`) keeps the pulse count, leaves an index below
+    `V(n−1,k') ≤ V(n,k)`, and subtracts only values that are ≤ the running index (no unsigned wrap). -/
+theorem cwrs_int_ranges (N K b : Nat) (h : Reach N K b) :
+    V N K < 4294967296 ∧
+    (∀ y : List Int, y.length = N → sumAbs y = K → ∀ j, j < N → OpusProofs.CwrsBij.encS (y.drop j) < V N K) ∧
+    (∀ m k i, 1 ≤ m → i < V (m + 1) k →
+      (OpusProofs.CwrsModel.stepS (m + 1) k i).2.1 ≤ k ∧
+      (OpusProofs.CwrsModel.stepS (m + 1) k i).2.2 < V m (OpusProofs.CwrsModel.stepS (m + 1) k i).2.1 ∧
+      V m (OpusProofs.CwrsModel.stepS (m + 1) k i).2.1 ≤ V (m + 1) k ∧
+      U (m + 1) (OpusProofs.CwrsModel.stepS (m + 1) k i).2.1 ≤ (if U (m + 1) (k + 1) ≤ i then i - U (m + 1) (k + 1) else i)) := by
+  obtain ⟨_, _, hV, _⟩ := OpusProofs.CwrsCache.reach_facts h
+  refine ⟨hV, ?_, fun m k i hm hi => OpusProofs.CwrsRanges.cwrsi_step_range m k i hm hi⟩
+  intro y hl hs j hj
+  subst hl hs
+  exact OpusProofs.CwrsRanges.icwrs_partial_lt y j hj
+
+
+/-- `opus_int16 val` and the float accumulator `yy` of `cwrsi` lose nothing: for every reachable `(N,K)`, `K ≤ 128`, and
+    every vector with `K` pulses has coordinates of magnitude ≤ K < 2^15 and `Σ y² ≤ K² ≤ 2^14 < 2^24` (exact in a
+    float). -/
+theorem cwrs_val_ranges (N K b : Nat) (h : Reach N K b) (y : List Int) (hs : sumAbs y = K) :
+    K ≤ 128 ∧ (∀ v ∈ y, v.natAbs ≤ K) ∧ sumSq y ≤ K * K ∧ K * K ≤ 16384 := by
+  have hK := OpusProofs.CwrsRanges.reach_K_le h
+  subst hs
+  exact ⟨hK, OpusProofs.CwrsRanges.coord_le y, OpusProofs.CwrsRanges.sumSq_le y, Nat.mul_le_mul hK hK⟩
 
 end OpusProps.C17
